@@ -31,7 +31,7 @@ def run(tier, seed, replay=None):
         return rep.finish()
     r = rng(seed, "C17")
     names = ["m%d" % i for i in range(8)]
-    conns_all = ",".join("%s:t:ok" % h(n) for n in names)
+    conns_all = ",".join("%s:t:ok" % h(n) for n in names) + "," + ",".join("%s:t:err" % h(n) for n in ("down0", "down1"))
     q = c02.REQ_POOL[0]
     cases = []
     for n in range(1, 8):
@@ -59,12 +59,23 @@ def run(tier, seed, replay=None):
                 tg2.append("D%s:%d" % (ip.encode().hex(), port))
             cases.append(dict(kind="hash-obj", members=members, count=32, tasks=1, algo="{hashBy: 'request.target'}", targets=tg2))
         cases.append(dict(kind="random", members=members, count=60 * len(members) if tier == "quick" else 200 * len(members), tasks=1, algo="random", targets=[q[2]]))
+    # the member actually used is the one recorded - also when the member is itself a balancer (the record names the
+    # connector that opened the connection, not a balancer on the way) and when the member's connect fails
+    def inner_yaml(name, members, algo=None):
+        return lb_yaml(members, algo).replace("name: lb\n", "name: %s\n" % name)
+    cases.append(dict(kind="nested", members=["east", "m2"], count=12, tasks=1, algo=None, targets=[q[2]], inner=[inner_yaml("east", ["m0", "m1"])], leaves=["m0", "m1", "m2"]))
+    cases.append(dict(kind="nested", members=["east", "west"], count=16, tasks=4, algo=None, targets=[q[2]],
+                      inner=[inner_yaml("east", ["m0", "m1"]), inner_yaml("west", ["deep", "m3"]), inner_yaml("deep", ["m4"], "random")], leaves=["m0", "m1", "m3", "m4"]))
+    cases.append(dict(kind="failing-member", members=["m0", "down0", "m1"], count=9, tasks=1, algo=None, targets=[q[2]], leaves=["m0", "down0", "m1"]))
+    cases.append(dict(kind="failing-member", members=["down0", "down1"], count=6, tasks=1, algo="random", targets=[q[2]], leaves=["down0", "down1"]))
+    cases.append(dict(kind="failing-member", members=["east", "m2"], count=8, tasks=1, algo=None, targets=[q[2]], inner=[inner_yaml("east", ["down0", "m1"])], leaves=["down0", "m1", "m2"]))
     cases.append(dict(kind="bad-empty", members=[], count=1, tasks=1, algo=None, targets=[q[2]]))
     cases.append(dict(kind="bad-unknown", members=["m0", "zz"], count=1, tasks=1, algo=None, targets=[q[2]]))
     cases.append(dict(kind="bad-key-type", members=["m0"], count=1, tasks=1, algo="{hashBy: 'request.target.port'}", targets=[q[2]]))
     if replay:
         cases = json.load(open(replay)).get("scenarios", cases)
-    lines = ["lb_seq %s %s %d %d %s %s %s t" % (h(lb_yaml(c["members"], c["algo"])), conns_all, c["count"], c["tasks"], h(q[0]), q[1], ",".join(c["targets"]))
+    lines = ["lb_seq %s %s %d %d %s %s %s t%s" % (h(lb_yaml(c["members"], c["algo"])), conns_all, c["count"], c["tasks"], h(q[0]), q[1], ",".join(c["targets"]),
+                                                  (" " + ",".join(h(y) for y in c["inner"])) if c.get("inner") else "")
              for c in cases]
     impl = run_impl(driver, lines)
     # tight-loop stress of the atomic counter: every member exactly per*tasks/n times
@@ -96,7 +107,7 @@ def run(tier, seed, replay=None):
             n = len(c["members"])
             if any("MISMATCH" in p for p in picks):
                 bad = "recorded connector differs from the member whose connect() ran: " + [p for p in picks if "MISMATCH" in p][0]
-            elif any(p not in c["members"] for p in picks):
+            elif any(p not in c.get("leaves", c["members"]) for p in picks):
                 bad = "selected a connector that is not a member: %s" % [p for p in picks if p not in c["members"]][:2]
             elif len(picks) != c["count"]:
                 bad = "%d selections for %d requests" % (len(picks), c["count"])
@@ -138,7 +149,7 @@ def run(tier, seed, replay=None):
         rep.broken_obligation(broken[0], broken[1])
     rep.coverage.update({
         "evaluations": sum(c["count"] for c in cases), "distinct_nontrivial": nt,
-        "rule": "member lists of 1-7 entries (with duplicates), round robin over k*n sequential selections (every n-window checked), 6n and 400n (2000n thorough) selections from 2-32 concurrent tasks (multiset checked), hash-by over 4 key expressions x 6 requests x 4 repetitions, random with >= 60n draws, three invalid configurations; non-trivial = scenario that produced selections",
+        "rule": "member lists of 1-7 entries (with duplicates), round robin over k*n sequential selections (every n-window checked), balancers nested two and three deep and members whose connect fails (the record must name the connector whose connect ran), 6n and 400n (2000n thorough) selections from 2-32 concurrent tasks (multiset checked), hash-by over 4 key expressions x 6 requests x 4 repetitions, random with >= 60n draws, three invalid configurations; non-trivial = scenario that produced selections",
         "input_distribution": dist,
         "samples": [dict(kind=cases[i]["kind"], members=cases[i]["members"], observed=impl[i][:120]) for i in range(0, len(cases), max(1, len(cases) // 5))][:5],
         "traces_validated_against_impl": nt,
